@@ -111,7 +111,7 @@ def fault_case(fclass, ftype, fexpr, overrides, pos, ptype):
     return {"program": prog, "scripts": gen.make_scripts(steps, {}), "input": inp, "shape": "%s@%s" % (fclass, pos), "outcome": {}, "fault": (fclass, pos)}
 
 
-MISBEHAVE = ["undeclared", "illtyped", "nildata", "serverfatal", "drop", "crash"]
+MISBEHAVE = ["undeclared", "illtyped", "nildata", "serverfatal", "drop", "crash", "error"]
 DEPLOY_FAULTS = [{"hello": "eof"}, {"hello": "garbage"}, {"hello": "badversion"}, {"hello": "badschema"}, {"schema": "mismatch"}, {"schema": "renamed"},
                  {"write_err": True}, {"close_err": "scripted close error"}, {"fail": "deploy error"}]
 
@@ -151,13 +151,18 @@ def run(check):
                   "type, enabled, stop_if, deploy, wait_for, closure timeout, workflow output, foreach items and parallelism), type-adapted so that Prepare accepts "
                   "them; (B) misbehaving plugins (undeclared output id, ill-typed data, nil data, step-fatal and server-fatal errors, dropped connection) at every "
                   "step of 4 shapes and protocol faults at the run-time deployment; oracle: the child process must not die by panic / fatal error (and must not "
-                  "hang); (C) results that appear only because the run is being terminated and reach steps that are being closed; (D) explicit output schemas that do not fit the workflow (missing root object, dangling reference, other types); (G) a step closed while its input is being handed over (delay at the hand-over point); (F) stage inputs written as plain constants on loop and plugin steps; (E) whole stage inputs (loop items, parallelism, wait_for, closure timeout, stop_if, enabled) that are wait-optional and absent at run time; non-trivial = a fault was injected and the workflow was accepted; distinct = (fault class, position)") % (len(FAULTS), len(POSITIONS))
+                  "hang); (C) results that appear only because the run is being terminated and reach steps that are being closed; (D) explicit output schemas that do not fit the workflow (missing root object, dangling reference, other types); (G) a step closed while its input is being handed over (delay at the hand-over point); (H) the misbehaving-plugin cases again with the engine configured to log step outputs (logged_outputs); (F) stage inputs written as plain constants on loop and plugin steps; (E) whole stage inputs (loop items, parallelism, wait_for, closure timeout, stop_if, enabled) that are wait-optional and absent at run time; non-trivial = a fault was injected and the workflow was accepted; distinct = (fault class, position)") % (len(FAULTS), len(POSITIONS))
     check.assumptions = ["workflow inputs are schema-valid", "a rejected workflow is not a violation but is counted (coverage lost)"]
     gs = []
     for (fclass, ftype, fexpr, ov) in FAULTS:
         for (pos, ptype) in POSITIONS:
             gs.append(fault_case(fclass, ftype, fexpr, ov, pos, ptype))
     gs += misbehaving_cases(check)
+    # (H) the engine is configured to log the outputs of steps (logged_outputs): every plugin result, declared or not, is
+    # also formatted for the log
+    for g in misbehaving_cases(check):
+        if g["fault"][0] in ("error", "alt", "success", "undeclared", "illtyped", "nildata", "crash"):
+            gs.append(dict(g, shape="logged/" + g["shape"], fault=("logged-" + g["fault"][0], g["fault"][1]), logged_outputs={"success": 0, "error": 0, "nonsense": 0}))
     for rep in range(check.pick(30, 120)):
         for par in (8, 64):
             sub = gen.sub_program("sub.yaml", 1)
@@ -297,6 +302,8 @@ def run(check):
         case = {"id": "c07-%05d" % i, "files": prog.files(), "scripts": g["scripts"], "runs": [{"input": g["input"]}]}
         if g.get("plan"):
             case["plan"], case["plan_scope"] = g["plan"], "execute"
+        if g.get("logged_outputs"):
+            case["logged_outputs"] = g["logged_outputs"]
         items.append((case, None, g))
     stats = {"accepted": 0, "rejected": 0, "returned_error": 0, "returned_output": 0, "crashes": 0, "rejected_classes": {}}
     with harness.Runner() as rn:
